@@ -34,6 +34,7 @@ static void model_mode(void) {
       printf("U");
       for (long e = ev0; e < vm_nev; e++) if (vm_ev[e].kind == VM_MUNMAP) printf(" %zu %zu", (size_t)vm_ev[e].addr, vm_ev[e].size);
       printf("\n"); n_eval++;
+      if (vm_foreign_unmaps > 0) { FAIL("unmap_of_memory_not_owned", "kind %d size %zu align %zu offset %zu: _mi_os_free unmapped %p + %zu, of which only %zu bytes were mapped by the allocator", kind, size, align, offset, (void*)vm_foreign_addr, vm_foreign_size, vm_foreign_covered); vm_foreign_unmaps = 0; }
       if (vm_page_state((uintptr_t)p) >= 0) FAIL("os_region_still_mapped", "kind %d size %zu align %zu offset %zu: %p still mapped after _mi_os_free", kind, size, align, offset, p);
     }
   }
